@@ -17,6 +17,12 @@ _log.emit('ProcStart', role=_role, resume=_rl)
 
 
 def _at_exit():
+    # lines written to fd 2 when the interpreter shuts down - in a layer
+    # subprocess that is *after* its report (atexit handlers, helper
+    # processes that inherited the descriptor, shutdown noise)
+    for _line in _spec.get('env', {}).get('fd2_at_exit', ()):
+        if _role == 'child':
+            os.write(2, (_line + '\n').encode('utf-8', 'surrogateescape'))
     _log.emit('ProcExit')
 
 
